@@ -338,12 +338,27 @@ def union_sigfiles(paths):
     return len(s)
 
 
+def nshards(n, quick_n):
+    """Number of work items for a workload of n cases: a work item is as large as one of the 16 quick-tier shards, so that the
+    memory a worker holds (generated cases with their ground truth, harness output) does not grow with the tier."""
+    per = max(1, quick_n // NPROC)
+    return max(NPROC, (n + per - 1) // per)
+
+
+def discard(*paths):
+    for p in paths:
+        try:
+            os.remove(p)
+        except OSError:
+            pass
+
+
 def pool_map(func, items, procs=None):
     """multiprocessing map (fork) for generator+judge shards"""
     import multiprocessing as mp
     ctx = mp.get_context('fork')
     with ctx.Pool(procs or NPROC) as p:
-        return p.map(func, items)
+        return p.map(func, items, chunksize=1)
 
 
 def feature_hist(feature_sets):
